@@ -557,6 +557,7 @@ type Env struct {
 	intrinsics map[string]externalFn
 	Verbose    bool
 	Tier       string
+	Sem        chan struct{} // global cap on concurrently executing paths (across harnesses)
 }
 
 func (e *Env) isStubPkg(path string) bool {
@@ -654,7 +655,13 @@ func (e *Env) Explore(name string, fn *ssa.Function) (*HarnessRun, *SolverStats)
 				h.Paths++
 				h.mu.Unlock()
 
+				if e.Sem != nil {
+					e.Sem <- struct{}{}
+				}
 				px := e.runPath(h, solver, prefix)
+				if e.Sem != nil {
+					<-e.Sem
+				}
 
 				h.mu.Lock()
 				h.inflight--
